@@ -48,6 +48,9 @@ class Cur:
         self.items = list(items_of(data))
         self.pos = 0
         self.dc = []  # don't-care byte positions
+        self.shapepos = []  # positions of shape-bearing bytes (counts, enum codes, segment tables)
+        self.textpos = []  # positions of text bytes before a terminator
+        self.nulpos = []  # positions of string terminators
 
     def take(self, n: int):
         if self.pos + n > len(self.items):
@@ -63,6 +66,7 @@ class Cur:
         self.pos += n
 
     def cint(self, n: int, signed: bool) -> int:
+        self.shapepos.extend(range(self.pos, self.pos + n))
         b = self.take(n)
         if not isinstance(b, bytes):
             raise LayoutError("shape-bearing field is not concrete")
@@ -83,7 +87,10 @@ class Cur:
                 continue
         self.pos += width
         if cut is None:
+            self.textpos.extend(range(start, start + width))
             return mkbytes(raw)
+        self.textpos.extend(range(start, start + cut))
+        self.nulpos.append(start + cut)
         self.dc.extend(range(start + cut + 1, start + width))
         return mkbytes(raw[:cut])
 
@@ -267,7 +274,40 @@ def ref_decode(I, kind: str, data, fmt: int):
             A((f"event{k}.values", c.take(4 * nI) if nI else b""))
     else:
         raise ValueError(kind)
+    ref_decode.last_cursor = c
     return out, c.pos, c.dc
+
+
+def symbolize(I, data: bytes, kind: str, fmt: int, tag: str = "cap"):
+    """A buffer shaped like `data` (same counts, enum codes, run tables and terminator
+    positions) in which every other byte is symbolic: text bytes are arbitrary non-NUL
+    decodable bytes, numeric and don't-care bytes are arbitrary."""
+    import z3
+    from symtdf.sbytes import dec_ok_e, item_bv
+
+    _, consumed, dc = ref_decode(I, kind, data, fmt)
+    c = ref_decode.last_cursor
+    fixed = set(c.shapepos) | set(c.nulpos)
+    # channel maps must be pairwise distinct for a block to be valid: kept as recorded
+    n0 = int.from_bytes(data[0:4], "little", signed=True)
+    if kind == "fpcal":
+        fixed |= set(range(8, 8 + 2 * n0))
+    elif kind in ("emg", "fpdata"):
+        fixed |= set(range(16, 16 + 2 * n0))
+    text = set(c.textpos)
+    sym = list(items_of(I.rawbytes(tag, consumed)))
+    out = []
+    for p in range(consumed):
+        if p in fixed:
+            out.append(data[p])
+        else:
+            x = sym[p]
+            if p in text and not isinstance(x, int):
+                I.assume(z3.And(item_bv(x) != 0, dec_ok_e(item_bv(x))))
+            elif p in text and (x == 0 or bytes([x]).decode("cp1252", "ignore") == ""):
+                x = 0x41
+            out.append(x)
+    return mkbytes(out), consumed
 
 
 # ---------------------------------------------------------------------------------
